@@ -17,7 +17,7 @@ CLASSES = (64, 128, 192)
 NUMBERS = (0, 1, 30, 31, 127, 128, 16383, 16384, 2 ** 32)
 BASES = [(U.T('INTEGER'), 5), (U.T('OCTETSTRING'), b'ab'), (U.T('SEQUENCE', fields=[('a', U.T('INTEGER'), 'req')]), {'a': 1}),
          (U.T('NULL'), None), (U.T('SEQUENCEOF', elem=U.T('BOOLEAN')), [True]), (U.T('BITSTRING'), '101'),
-         (U.T('BITSTRING'), '1011001110001111')]
+         (U.T('BITSTRING'), '1011001110001111'), (U.T('ENUMERATED'), 1)]
 SEGMENT_TAG = {'OCTETSTRING': 4, 'BITSTRING': 3}
 
 
